@@ -59,12 +59,24 @@ META = {
                   '(features and interface_classes depend on the MRO and the direct bases along it only, whatever was created '
                   'before), control_isolated / inputs_only_by_own_registration / control_calls_isolated (the table of input callbacks '
                   'of a module, and what self_controlled() calls, change by registrations with that module only).  '
+                  'Status codes (FrappyModel/Klass/Status.lean: StatusType(<class>, *standard, **custom) worked out by the model from '
+                  'the class it extends): status_codes_own_chain (the enum has exactly the codes of that class and the codes given), '
+                  'status_of_class_stable / status_elab_stable (the status of a class, and what a status declaration means, is the '
+                  'same after any admissible run - other families using the same numbers under other names included).  Struct '
+                  'parameters (StructParam expanded by the model: expandStructs_names; FrappyModel/Klass/StructRW.lean: the per-object '
+                  'nesting counter of the member/struct callbacks): member_update_context_free (what a module shows after a member '
+                  'update is the same inside a struct access of any OTHER module as on its own), member_update_reaches_struct; '
+                  'contextOffenders_sound (monitor).  '
                   'Tied to the code by a correspondence run (every dump, '
                   'propertyDict, property values, exportProperties and the id()-sharing partition incl. Property objects and member '
                   'datatypes after every operation of generated programs) and by Lean monitors judging every implementation trace '
                   '(isolation incl. write_<p>/command-call behaviour, module properties, loaded configuration sections, class and '
                   'instance namespaces and input-callback behaviour; order independence of classes AND of module creation; later '
-                  'instances incl. a second creation from the same loaded section; writes follow the own datatype).',
+                  'instances incl. a second creation from the same loaded section; writes follow the own datatype; what a module shows '
+                  'after a member update does not depend on which other module is being accessed meanwhile).  Every run of a program '
+                  '(first order, other order, every shrinking step, every replay) happens in a process of its own, forked from a parent '
+                  'that has imported frappy and nothing else: no class-level table, memo or registry survives from one run to another; '
+                  'the class-level state of frappy\'s own datatype / Parameter / Command / Property classes is an owner (lib:*) of every dump.',
     'level_note': 'Trusted: Lean kernel + axioms propext/Classical.choice/Quot.sound; Python C3 linearisation is an input (the real '
                   '__mro__ is passed to the model); validation behaviour is taken to be a function of the exported datainfo '
                   '(monitored on every run); whether an operation fails is taken from the implementation (the model skips failed '
@@ -75,7 +87,8 @@ META = {
     'trusted': [
         "Python's C3 linearisation (the real __mro__ of every generated class is passed to the model as data)",
         'validation behaviour of a datatype object is a function of its exported datainfo (checked by the monitor valFunctionalB on every run)',
-        'class bodies are drawn from a template family (type() with Parameter/Command/Property/bare value/None/method declarations), not arbitrary Python',
+        'class bodies are drawn from a template family (type() with Parameter/Command/Property/StructParam/StatusType/bare value/None/method declarations), not arbitrary Python; member access methods of struct parameters are the harness\'s (value from/to a table, hooks calling into other modules)',
+        'os.fork() gives a run the interpreter state of the parent (frappy imported, no generated class): state the parent itself acquires while building wire formats (it builds datatype objects and Command objects, never a class or a module) would be inherited by all runs alike',
         'a LimitsType is told to the model as such (kind "limits", one member); every other datatype object by its exported datainfo',
         'the items of a Param object and the entries of a Mod are told to the model in the order frappy.config builds them (value last); SECoP_BASE_CLASSES is passed to the driver with every request',
     ],
@@ -85,7 +98,9 @@ META = {
         'HasOutputModule.initModule/activate_control (the controller side) is not run: register_input is called on the output module with a recording callback',
         'the class/instance namespace digest (names and plain-data values, other objects by type name) is judged, not predicted',
         'read_/write_/check_ wrapper generation in __init_subclass__',
-        'Limit parameters (<p>_min/_max/_limits); ScaledInteger, BLOBType, StatusType/OrType/NoneOr as parameter datatypes (StatusType appears through frappy.modules only)',
+        'Limit parameters (<p>_min/_max/_limits); ScaledInteger, BLOBType, OrType/NoneOr as parameter datatypes; FloatEnumParam',
+        'the elaboration of status declarations and StructParam declarations (Klass/Status.lean) happens in front of pureDefine (driver: elabOp, expandStructs): the theorems about order independence see the elaborated class bodies; that elaboration itself is order independent is status_elab_stable',
+        'Klass/StructRW.lean is a model of the callbacks of ONE thread (insideRW is thread local); hasStructRW layouts (own read_/write_<struct>) and the partial-failure path of the generated struct read/write are not modelled; lib:* owners and the outcome of the context probe are judged (and, for accepted member updates, predicted), the namespace digests are not predicted',
         'outcomes of write_<p>(v) through the generated wrapper and of Command.do(): dumped, judged (isolation, order, writesOwn), not predicted',
         'the module property `export = False` (switches the export of all accessibles off) is never generated',
     ],
